@@ -8,7 +8,9 @@ import oracles
 SAFE = ["Model/Exec.v", "Model/ExecInv.v", "Proofs/ExecSafe.v", "Proofs/ExecCor.v"]
 LIVE = SAFE + ["Proofs/ExecLive.v", "Proofs/ExecMeasure.v", "Proofs/ExecLiveCor.v",
                "Model/StepExec.v", "Model/DepExec.v", "Model/LiveSpec.v", "Proofs/DepSafe.v", "Proofs/DepLive.v", "Proofs/DepLiveStep.v", "Proofs/DepLiveCor.v", "Proofs/DepMeasure.v", "Proofs/Fidelity.v", "Proofs/DepCeiling.v", "Proofs/DepMeasureStep.v",
-               "Proofs/StepSafe.v", "Proofs/StepLive.v", "Proofs/StepLiveCor.v", "Proofs/Refute.v"]
+               "Proofs/StepSafe.v", "Proofs/StepLive.v", "Proofs/StepLiveCor.v", "Proofs/Refute.v",
+               "Model/FileExec.v", "Model/FileSpec.v", "Model/CacheExec.v", "Model/CacheSpec.v", "Model/CacheLiveSpec.v", "Proofs/CacheSafe.v",
+               "Proofs/CacheCancel.v", "Proofs/CacheLive.v", "Proofs/CacheLiveCor.v"]
 
 TABLE = {
     "C01": dict(kinds=["block", "step", "dep", "cblock"], oracle=oracles.c01,
@@ -147,6 +149,55 @@ def ctor_limits(res):
                       {"kind": "tie", "case": bad[0][0], "implementation": bad[0][1], "model": bad[0][2]}, found_input=False)
 
 
+def cached_rest_on_traces(res):
+    """the statement proved in Proofs/CacheLive.v (Model/CacheLiveSpec.v: crest_ok_b) evaluated along kill-free sessions of the
+    real block executor with cache_directory (later sessions start from the directory the earlier ones left: hits)"""
+    import cachefile
+    import lockstep
+    rng = res.rng
+    n = 30 if res.tier == "quick" else 300
+    cases = []
+    while len(cases) < n:
+        c = cachefile.gen_cache_case(rng)
+        bad = False
+        for s in c["sessions"]:
+            s.pop("crash", None)
+            ids = [o[1] for o in s["ops"] if o[0] == "submit"]
+            cs = [c["calls"][i - 1].get("same_as", i) for i in ids]
+            bad = bad or len(set(cs)) != len(cs)
+        if bad:
+            continue
+        c["schedule"] = lockstep.gen_schedule(rng, 2000)
+        cases.append(c)
+    results = lockstep.run_cases(cases)
+    exprs, keep = [], []
+    for c, r in zip(cases, results):
+        if r["verdict"] not in ("done", "deadlock", "quiescent"):
+            continue
+        canon = [str(x.get("same_as", i + 1)) for i, x in enumerate(c["calls"])]
+        parts, _ = lockstep.split_sessions_c(c, r)
+        sess = []
+        for s, entries in zip(lockstep.cexec_sessions(c), parts):
+            picks = [lockstep.tid_coq(pick) for en, pick, lab in entries]
+            sess.append("([%s], [%s])" % ("; ".join(lockstep.op_coq(o) for o in s["ops"]), "; ".join(picks)))
+        exprs.append("(clive_case %d [%s] %d [%s])%%nat" % (c.get("workers", 1), "; ".join(canon), len(c["calls"]), "; ".join(sess)))
+        keep.append(c)
+    try:
+        outs = core.eval_strings(["Base.Dec", "Model.Exec", "Model.CacheExec", "Model.CacheLiveShow"], exprs, "clive", shard=100)
+    except core.CaseEvalError as ex:
+        res.violation("Model/CacheLiveShow.v could not be evaluated: %s" % str(ex)[-400:], {"kind": "tie", "theorem": "Proofs/CacheLive.v"},
+                      found_input=False)
+        return
+    res.cov["cached_rest_statement_traces"] = len(outs)
+    res.cov["cached_rest_states"] = sum(int(o.split()[1]) for o in outs if o.startswith("ok "))
+    bad = [(c, o) for c, o in zip(keep, outs) if not (o.startswith("ok ") or o == "skip")]
+    if bad:
+        c, o = bad[0]
+        res.violation("a kill-free run of the cached block executor reaches a state in which nothing can move although the client, a "
+                      "future, a process or a thread has not finished (Model/CacheLiveSpec.v crest_ok_b): %s" % o,
+                      {"kind": "oracle", "case": {k: v for k, v in c.items() if k != "schedule"}, "schedule": c["schedule"][:400]})
+
+
 def real_slice(res, pid, kind, n_quick=2, n_thorough=10):
     """a few runs with real processes / real zmq / a real interpreter exit (harness/real.py)"""
     import sys
@@ -178,6 +229,8 @@ def run(res, pid):
             res.violation("with a cache directory two different calls are taken for the same call", {"kind": "oracle", "case": kf[0]})
     if pid == "C07":
         ctor_limits(res)
+    if pid == "C02":
+        cached_rest_on_traces(res)
     if pid == "C03":
         import traverse
         try:
